@@ -163,6 +163,19 @@ theorem Sl_ArrayMetaDataSlab_Get_heap (T : Nat) (d : Nat) (m : MetaSlab (ATree d
         | .error e => (none, some e, s)) :=
   getMeta_of_disp T d (getDisp_all T d) m i s depth hd hh hr
 
+/-- **where the heap version differs from the embedded model**: the header copy at the routed position names a slab
+    that the storage does not hold.  Go returns `SlabNotFoundError` (from `getArraySlab`), nothing is touched; the
+    model's children are embedded, so `ATree.get` has no such case (`Holds` excludes it). -/
+theorem Sl_ArrayMetaDataSlab_Get_notFound_differs_at (T : Nat) {α : Type} (m : MetaSlab α) (i k adj : Nat) (s : HSt)
+    (depth : Nat)
+    (hroute : Trans.ArrayMetaDataSlab_childSlabIndexInfo (u32 m.hdr.count) (u32s m.countSum)
+      (u32s (countsOf m.childHdrs)) (u64 i) = some (Int.ofNat k, u64 adj))
+    (hmiss : s.heap ((m.childHdrs.map trHdr).getD k TransSl.ArraySlabHeader.zero).slabID = none) :
+    TransSl.ArrayMetaDataSlab_Get (envH T) (depth + 1) (trMeta m) s (u64 i) = some (none, some .slabNotFound, s) := by
+  have e1 := childInfoOf_trMeta_ok m i k adj (some .indexOutOfBounds) hroute
+  simp only [TransSl.ArrayMetaDataSlab_Get, envH_childInfo, e1, envH_getArraySlab, hmiss, Option.isSome_none,
+    Option.isSome_some, Bool.false_eq_true, if_false, if_true]
+
 /-- the depth argument is exhausted (the tree is deeper): the generated code leaves the modelled fragment -/
 theorem Sl_ArrayMetaDataSlab_Get_depth0 (T : Nat) (a : GMeta) (s : HSt) (i : UInt64) :
     TransSl.ArrayMetaDataSlab_Get (envH T) 0 a s i = none := rfl
